@@ -117,6 +117,9 @@ fn p_iv(s: &str) -> Res<[u8; 16]> {
 }
 
 fn p_versions(s: &str) -> Res<Vec<u8>> {
+    if s == "empty" {
+        return Ok(Vec::new()); // `KeyFormatVersions::new()`: present, no entries
+    }
     s.split('/').map(p_u8).collect()
 }
 
